@@ -70,6 +70,12 @@ pub fn build_site(depths: usize) -> Site {
         let _ = std::os::unix::fs::symlink("shared.txt", d.join("up"));
         let _ = std::os::unix::fs::symlink("../shared.txt", sub.join("up"));
         let _ = std::os::unix::fs::symlink("../../shared.txt", deep.join("up"));
+        // directories whose names contain the characters that end the path of a target
+        for odd in ["c#", "q%3f", "s p"] {
+            let o = d.join(odd);
+            std::fs::create_dir_all(&o).unwrap();
+            std::fs::write(o.join("ten.txt"), format!("odd-ten-LEVEL{}\n", lvl)).unwrap();
+        }
         let _ = std::os::unix::fs::symlink(&linked_dir, d.join("link"));
         let _ = std::os::unix::fs::symlink(&linked_file, d.join("linkf"));
     }
@@ -96,6 +102,26 @@ impl Case {
             range: v["range"].as_str().map(|s| s.to_string()),
         }
     }
+}
+
+/// "{A<k>}" -> absolute path of the k-th ancestor of the current directory (the served root)
+pub fn expand_ancestors(target: &str) -> String {
+    if !target.contains("{A") {
+        return target.to_string();
+    }
+    let mut out = target.to_string();
+    let cwd = std::env::current_dir().unwrap_or_default();
+    let mut anc: Option<&std::path::Path> = cwd.parent();
+    let mut k = 1;
+    while let Some(a) = anc {
+        out = out.replace(&format!("{{A{}}}", k), &a.to_string_lossy());
+        anc = a.parent();
+        k += 1;
+        if k > 12 {
+            break;
+        }
+    }
+    out
 }
 
 /// Does the path part of the target climb above the root, lexically?
@@ -148,6 +174,8 @@ pub fn check(case: &Case, own_level: usize) -> (String, bool, Vec<(String, Strin
     if let Some(r) = &case.range {
         headers.push(("Range", r.as_str()));
     }
+    let target = expand_ancestors(&case.target);
+    let case = &Case { target, ..case.clone() };
     let req = drive::get(&case.target, &headers);
     let mut s = MockStream::new(&req);
     let out = drive::run(case.entry, &mut s);
@@ -255,6 +283,69 @@ pub fn run(ctx: &mut Ctx) {
                             }
                         }
                     });
+                }
+            }
+        }
+    }
+    // (2) the absolute file-system path of every ancestor directory as the head of the target
+    //     (a path joiner that lets an absolute tail replace the root), and (3) climbing through a
+    //     directory whose name contains '#', an encoded '?' or a blank: every sequence of 4
+    //     segments over a reduced alphabet, with every suffix
+    let odd_segs: [&str; 8] = ["..", ".", "c#", "q%3f", "s p", "sub", "secret.txt", "ten.txt"];
+    ctx.bound("absolute_path_heads", json!("for every ancestor directory A of the root: A, /A, //A, /./A as the head of the target, followed by 0..1 segments and every suffix"));
+    ctx.bound("odd_directory_names", json!({"names": ["c#", "q%3f", "s p"], "targets": "every sequence of 4 segments over 8 symbols x prefixes {/, //} x every suffix"}));
+    for (d, root) in site.roots.iter().enumerate() {
+        std::env::set_current_dir(root).unwrap();
+        // "{A<k>}" stands for the absolute path of the k-th ancestor of the served root (expanded
+        // when the case runs, so that a replay in another scratch directory means the same thing)
+        let mut heads: Vec<String> = Vec::new();
+        let mut anc: Option<&std::path::Path> = root.parent();
+        let mut k = 1;
+        while let Some(a) = anc {
+            for pre in ["", "/", "//", "/./", "/.//"] {
+                heads.push(format!("{}{{A{}}}/", pre, k));
+            }
+            if a == site.scratch.as_path() {
+                break;
+            }
+            anc = a.parent();
+            k += 1;
+        }
+        let mut targets: Vec<String> = Vec::new();
+        for h in &heads {
+            for tail in ["", "secret.txt", "ten.txt", "shared.txt", "sub/secret.txt", "index.html"] {
+                for s in SUFFIXES {
+                    targets.push(format!("{}{}{}", h, tail, s));
+                }
+            }
+        }
+        enumerate::sequences_exact(odd_segs.len(), 4, &mut |idx| {
+            let mid: Vec<&str> = idx.iter().map(|i| odd_segs[*i]).collect();
+            if !mid.iter().any(|m| *m == "c#" || *m == "q%3f" || *m == "s p") {
+                return;
+            }
+            for p in ["/", "//"] {
+                for s in SUFFIXES {
+                    targets.push(format!("{}{}{}", p, mid.join("/"), s));
+                }
+            }
+        });
+        for entry in [Entry::Process, Entry::Legacy] {
+            for (ri, range) in RANGES.iter().enumerate() {
+                for target in &targets {
+                    let key = format!("{}\0{}\0{}\0{}", d, entry.name(), ri, target);
+                    if !ctx.begin(key.as_bytes()) {
+                        continue;
+                    }
+                    let case = Case { depth: d, entry, target: target.clone(), range: range.map(|r| r.to_string()) };
+                    let (class, nontrivial, fails) = check(&case, d + 1);
+                    if nontrivial {
+                        ctx.nontrivial();
+                    }
+                    ctx.outcome(&class);
+                    for (sig, detail) in fails {
+                        ctx.fail(&sig, || case.to_json(), detail);
+                    }
                 }
             }
         }
